@@ -362,19 +362,23 @@ theorem db_keys_ascii : Gen.dbTables.all (fun p => keysAscii (toTable p.2)) = tr
 theorem db_paste_keys : Gen.dbTables.all (fun p => !pasteEnabled p.1 || pasteKeys (toTable p.2)) = true := by
   decide +kernel
 
-/-- the entry carries the rxvt Ctrl-arrow strings `ESC [ O a…d` that `terminfo/mkinfo.go:362` assigns (real rxvt sends
+/-- the entry carries the rxvt Ctrl-arrow strings `ESC [ O a…d` that `terminfo/mkinfo.go:362` assigned before 7758baa (real rxvt sends
 `ESC O a…d`): they have the focus-out report `ESC [ O` as a proper prefix -/
 def rxvtCtrlArrows (ti : Terminfo) : Bool := bytesEq ti.keys.keyCtrlUp [27, 91, 79, 97]
 
-/-- wherever tcell enables focus reporting, no function key shadows `ESC [ I` / `ESC [ O` — **except** on the entries
-with the rxvt Ctrl-arrow strings (`_partial`: the statement for all entries is false on the pinned database, see
-`rxvt_focus_out_shadowed`; with fixes/C11-rxvt-ctrl-arrows.patch no entry has those strings and the exception is empty) -/
+/-- wherever tcell enables focus reporting, no function key shadows `ESC [ I` / `ESC [ O` (holds since /repo 7758baa
+"rxvt Ctrl-arrow keys are ESC O a..d"; before that commit the rxvt entries carried `ESC [ O a…d`, see
+`rxvt_focus_out_shadowed`, and only `db_focus_clear_partial` held) -/
+theorem db_focus_clear : Gen.dbTables.all (fun p => !focusEnabled p.1 || focusClear (toTable p.2)) = true := by
+  decide +kernel
+
+/-- the same with the rxvt Ctrl-arrow entries excepted (`_partial`: true also on trees older than 7758baa) -/
 theorem db_focus_clear_partial :
     Gen.dbTables.all (fun p => !focusEnabled p.1 || focusClear (toTable p.2) || rxvtCtrlArrows p.1) = true := by
   decide +kernel
 
-/-- **Counterexample (known finding `focus-shadowed-by-key`).**  With a key `ESC [ O a` in the table (rxvt family on the
-pinned database), a focus-out report followed by the typed letter `a` in the same read is decoded as that key
+/-- **Counterexample (finding `focus-report-lost`, fixed in /repo by 7758baa).**  With a key `ESC [ O a` in the table (rxvt family before
+7758baa), a focus-out report followed by the typed letter `a` in the same read is decoded as that key
 (Ctrl-Up): neither the focus event nor the rune is delivered, while the same bytes in two reads give both. -/
 theorem rxvt_focus_out_shadowed :
     let cfg : Cfg := { exCfg decUtf8 with keys := ⟨[27, 91, 79, 97], keyUp, modCtrl⟩ :: (exCfg decUtf8).keys }
